@@ -83,7 +83,7 @@ func (m c17) Run(ctx *core.Ctx) {
 		ctx.Begin(cs)
 		m.Exec(ctx, cs)
 	}
-	n := split(tierN(ctx.Tier, 500_000, 25_000_000), ctx.Shard, ctx.NShards)
+	n := split(tierN(ctx.Tier, 800_000, 25_000_000), ctx.Shard, ctx.NShards)
 	for i := int64(0); i < n; i++ {
 		in := gen.Input(r)
 		if r.IntN(5) == 0 {
@@ -96,7 +96,7 @@ func (m c17) Run(ctx *core.Ctx) {
 		ctx.Begin(cs)
 		m.Exec(ctx, cs)
 	}
-	n = split(tierN(ctx.Tier, 400_000, 25_000_000), ctx.Shard, ctx.NShards)
+	n = split(tierN(ctx.Tier, 800_000, 25_000_000), ctx.Shard, ctx.NShards)
 	for i := int64(0); i < n; i++ {
 		w := gen.Web(r)
 		cs := &core.Case{Check: "web-grammar", Input: core.S(w.Spell(r, gen.AllVariations)),
